@@ -121,7 +121,8 @@ pub enum Event {
     Two,
     /// toggles a subscription (site 4): start, or abort the live one via its AbortHandle
     Sub,
-    /// request -> request chain (sites 5, 6); its event answers with a further (legacy) effect
+    /// (request -> request -> event (sites 5, 6), whose update answers with a further legacy
+    /// effect).then(request -> event (site 7))
     Chain,
     /// render only (legacy capability)
     Render,
@@ -134,7 +135,8 @@ pub enum Event {
     Kv(String, #[serde(with = "serde_bytes")] Vec<u8>),
     /// HTTP GET with six headers (Command API); the answer triggers a notification
     Http,
-    /// legacy Platform request + legacy HTTP POST with two headers and a body
+    /// legacy Platform request + legacy HTTP POST with 43 header lines (12 names with three
+    /// values each) and a body
     Legacy,
     // ---- app-internal, but deserializable (they widen the decode surface for C12) ------------
     GotHttp(crux_http::Result<crux_http::Response<Vec<u8>>>),
@@ -196,6 +198,24 @@ pub struct ViewModel {
 #[derive(Default)]
 pub struct App;
 
+/// 12 names with three values each (given in an order that is NOT sorted) and 4 single-valued
+/// names: with h-one, h-two and the content type the legacy POST carries 43 header lines.
+pub fn many_headers() -> Vec<(String, Vec<crux_http::http::headers::HeaderValue>)> {
+    use std::str::FromStr;
+    let hv = |s: &str| crux_http::http::headers::HeaderValue::from_str(s).expect("ascii");
+    let mut v = vec![];
+    for i in 0..12 {
+        v.push((
+            format!("m-{i:02}"),
+            vec![hv(&format!("m{i}")), hv("a"), hv(&format!("z{i}"))],
+        ));
+    }
+    for i in 0..4 {
+        v.push((format!("s-{i}"), vec![hv(&format!("{i}"))]));
+    }
+    v
+}
+
 fn show_http(site: &str, res: crux_http::Result<crux_http::Response<Vec<u8>>>) -> String {
     match res {
         Ok(mut r) => {
@@ -249,9 +269,15 @@ impl crux_core::App for App {
                     cmd
                 }
             },
+            // (request -> request -> event) THEN (request -> event): the second command starts
+            // when the first is done - also when the first is done because the shell dropped
+            // its request
             Event::Chain => Command::request_from_shell(TinyOp::Ask(4))
                 .then_request(|a| Command::request_from_shell(TinyOp::Ask(5)).map(move |b| (a, b)))
-                .then_send(|(a, b)| Event::GotChain(a, b)),
+                .then_send(|(a, b)| Event::GotChain(a, b))
+                .then(
+                    Command::request_from_shell(TinyOp::Ask(6)).then_send(|o| Event::Got(7, o)),
+                ),
             Event::Render => {
                 model.renders += 1;
                 caps.render.render();
@@ -296,12 +322,15 @@ impl crux_core::App for App {
                 .then_send(Event::GotHttp),
             Event::Legacy => {
                 caps.platform.get(Event::GotPlatform);
-                caps.http
+                let mut post = caps
+                    .http
                     .post("https://example.com/p")
                     .header("h-one", "v")
-                    .header("h-two", "w")
-                    .body_bytes([1u8, 2, 3])
-                    .send(Event::GotHttpL);
+                    .header("h-two", "w");
+                for (name, values) in many_headers() {
+                    post = post.header(name.as_str(), &values[..]);
+                }
+                post.body_bytes([1u8, 2, 3]).send(Event::GotHttpL);
                 Command::done()
             }
             Event::Got(site, out) => {
